@@ -98,6 +98,16 @@ impl<const TOTAL_NUM_BITS: u32, const NUM_INDEX_BITS: u32>
     }
 }
 
+#[cfg(feature = "verif-hooks")]
+impl<const TOTAL_NUM_BITS: u32, const NUM_INDEX_BITS: u32>
+    PhaseAccumulator<TOTAL_NUM_BITS, NUM_INDEX_BITS>
+{
+    /// Verification hook: raw value of the accumulator
+    pub fn verif_acc(&self) -> u32 {
+        self.accumulator
+    }
+}
+
 #[cfg(test)]
 mod tests {
     use super::*;
